@@ -10,6 +10,7 @@
     shards and metadata are never opened for writing again.  The real traces of the library are
     checked against [discipline] on every run (this very boolean is evaluated on them by coqc). *)
 Require Import Sedpack.Model.Base Sedpack.Model.Crash Sedpack.Proofs.CrashProofs.
+Require Import Sedpack.Generated.GenMerge Sedpack.Generated.GenFiller Sedpack.Model.Filler Sedpack.Model.Meta Sedpack.Proofs.LogProofs.
 
 (** Under the discipline EVERY prefix of the trace leaves a consistent disk: every metadata path
     holds a complete document (the old or a new version) and every shard it lists is a completely
@@ -28,6 +29,24 @@ Theorem c06_committed_references_persist :
     (refs_in d q r -> refs_in (apply_all tr d) q r) /\ (forall c, child_in d q c -> child_in (apply_all tr d) q c).
 Proof. exact refs_persist_lemma. Qed.
 Print Assumptions c06_committed_references_persist.
+
+(** The sessions themselves (model of Model/Meta.v: fillers into any directory, multi-writer calls, the recursive merge).
+    The list documents and shard files of the model's file system are publication logs stamped by one shared counter: a stamp
+    is the moment the shard file was complete, resp. the list file was replaced (the [Close] / [Rename] effects above).
+    For every shard size and every history of sessions that completes: every list document ever published references only
+    shard files (with the recorded digest) and child lists published strictly before it ([LogOK]); hence in the crash state
+    at ANY moment [v] — the log cut at [v] — every document that is visible resolves all its references inside that crash
+    state.  (What lies between two publications — temporary files, half-written shards — is the subject of the first theorem.) *)
+Theorem c06_every_history_publishes_in_order :
+  forall (eps : nat) (h : list session) (fs : fsT) (info : dinfo), run_history eps h = Ok (fs, info) -> LogOK fs.
+Proof. exact history_log_closed. Qed.
+Print Assumptions c06_every_history_publishes_in_order.
+
+Theorem c06_every_cut_is_closed :
+  forall (fs : fsT) (v : nat), LogOK fs -> forall d s h, List.In (d, (s, h)) (lists (cut v fs)) ->
+    (forall sh, List.In sh (sl_files s) -> has_shard (cut v fs) sh v) /\ (forall c, List.In c (sl_children s) -> has_list (cut v fs) (li_dir c) v).
+Proof. exact every_cut_is_closed. Qed.
+Print Assumptions c06_every_cut_is_closed.
 
 (** Non-vacuity: the trace of a small session (shard, list temp + rename, description temp +
     rename) satisfies the discipline; writing the list file in place, or renaming before the
